@@ -164,11 +164,11 @@ def check_C01(tier, seed):
         ws = []
         schemas = vlib.REPR + checks_pick(seed, 2) if tier == "quick" else vlib.ALL
         for s in schemas:
-            ws.append(Workload(s, scripts, [], origin=res["instance"]))
-            ws.append(Workload(s, rscripts, [], tag="r", origin="seed-chosen values"))
+            ws.append(Workload(s, scripts, [], origin=res["instance"], per_shard=500))
+            ws.append(Workload(s, rscripts, [], tag="r", origin="seed-chosen values", per_shard=500))
         # on disk with a reopen at the end (track data part of C10)
         for s in (["1.6.0", "1.18.0o", "2.18.0", "2.21.2"] if tier == "quick" else vlib.ALL):
-            ws.append(Workload(s, [x + [mk("reopen")] for x in scripts[:40] + rscripts[:40]], [], mode="disk", tag="d", origin=res["instance"]))
+            ws.append(Workload(s, [x + [mk("reopen")] for x in scripts[:40] + rscripts[:40]], [], mode="disk", tag="d", origin=res["instance"], per_shard=500))
         return ws
 
     return track_history_check(
@@ -214,7 +214,7 @@ def check_C06(tier, seed):
             r = random.Random(seed * 7 + vlib.ALL.index(s))
             sc = [script(sq, "full", False) for sq in singles] + [script(sq, "min", False) for sq in singles]
             sc += [script(sq, r.choice(["full", "full", "sentinels", "edge"]), r.random() < 0.5) for sq in r.sample(pairs, min(npairs, len(pairs)))]
-            ws.append(Workload(s, sc, [], flags={"stale_get": False}, origin=res["instance"]))
+            ws.append(Workload(s, sc, [], flags={"stale_get": False}, origin=res["instance"], per_shard=500))
         # (R) longer seed-chosen setter sequences over three tracks
         nr = 25 if tier == "quick" else 300
         for s in schemas:
@@ -229,7 +229,7 @@ def check_C06(tier, seed):
                     if r.random() < 0.05:
                         ops.append(mk("fixpoint", t=r.randrange(1, 4)))
                 sc.append(ops)
-            ws.append(Workload(s, sc, [], tag="r", origin=res["instance"] + " (random walk)"))
+            ws.append(Workload(s, sc, [], tag="r", origin=res["instance"] + " (random walk)", per_shard=250))
         return ws
 
     return track_history_check(
